@@ -715,9 +715,11 @@ peg::parser! {
             [Token::Word(w, num_loc) if w.chars().all(|c: char| c.is_ascii_digit())]
             &([Token::Operator(o, redir_loc) if
                     o.starts_with(['<', '>']) &&
-                    locations_are_contiguous(num_loc, redir_loc)]) {
+                    locations_are_contiguous(num_loc, redir_loc)]) {?
 
-                w.parse().unwrap()
+                // A number too large for a file descriptor is not an I/O number; it is
+                // left to be parsed as an ordinary word.
+                w.parse().map_err(|_| "I/O number out of range")
             }
 
         //
